@@ -33,3 +33,10 @@ Theorem C05_other_tokens_untouched : forall keep conv t,
   match t with TNoteRest _ | TChord _ _ => True | _ => export_token keep conv t = Ok (tok_enc t) end.
 Proof. exact simple_export_verbatim. Qed.
 Print Assumptions C05_other_tokens_untouched.
+
+(* obligation regenerated from the source on every run: the code this property runs through keeps exactly the state the
+   model knows (no new attribute, class-level table, module-level binding or caching decorator), see proofs/State*Proofs.v *)
+From KV Require Import StateGen StateBase StateExportProofs StateTokensProofs.
+Theorem C05_state_as_modelled : state_export = modelled_state_export /\ state_tokens = modelled_state_tokens.
+Proof. exact (conj state_export_as_modelled state_tokens_as_modelled). Qed.
+Print Assumptions C05_state_as_modelled.
